@@ -273,7 +273,7 @@ func VerifC20Matcher() {
 type c20Action struct{ runs int }
 
 func (a *c20Action) Do(job gen.Atom, node gen.Node, atime time.Time) error { a.runs++; return nil }
-func (a *c20Action) Info() string                                       { return "count" }
+func (a *c20Action) Info() string                                          { return "count" }
 
 // VerifC20Spool: the scheduler's spool for the coming minute after a symbolic history of AddJob /
 // EnableJob / DisableJob / RemoveJob calls on two jobs (real createCron on a hand-built node, before
